@@ -380,4 +380,306 @@ theorem duo_claimant {cfg : Cfg} {G : Nat} {n : Net} {x y : Nat} {stx sty : NetS
         rw [hb, e] at h3
         exact hpolled (Option.some.inj h3)
 
+/-! ## Whole runs: claimant and listener until the listener's address is polled -/
+
+/-- What the claimant may transmit before it polls the listener's address. -/
+def DuoTx (aL aH : Nat) (c : Ctx) : Prop :=
+  c.tx = none ∨ c.tx = some (selfToken aL) ∨ ∃ a, a ≠ aL ∧ a ≠ aH ∧ c.tx = some (statusRequestBytes a aL)
+
+/-- **Run of claimant `x` (address `aL`) and listener `y` (address `aH`)**: every poll returns regularly; the
+listener never transmits; the claimant transmits only self-addressed tokens and GAP requests to third addresses,
+each poll of it no later than `B`, until it either completes its one-station ring or sends the GAP request to the
+listener's address (where this description ends). -/
+def DuoRun (x y aL aH : Nat) (B : Int) : Net → List (Nat × Int) → Prop
+  | _, [] => True
+  | n, (i, now) :: rest =>
+    ∃ n' inc c, n.poll i now = (n', inc, some (.ok c)) ∧
+      ((i = y ∧ c.tx = none ∧ DuoRun x y aL aH B n' rest) ∨
+       (i = x ∧ now ≤ B ∧
+          ((c.s.st = .useToken ⟨now, none⟩ false ∧ c.tx = some (selfToken aL)) ∨
+           c.tx = some (statusRequestBytes aH aL) ∨
+           (DuoTx aL aH c ∧ DuoRun x y aL aH B n' rest))))
+
+theorem duo_run {cfg : Cfg} (hok : cfg.Ok) (hP100 : cfg.P ≤ 100000) (G : Nat) (hG : cfg.slot + 3 * cfg.P ≤ G) (x y : Nat)
+    (r0 : TokenRing) (B : Int) (aL hsa : Nat) (sty0 : NetStation) :
+    ∀ (evs : List (Nat × Int)) (n : Net) (stx sty : NetStation) (l : Int) (stage : SStage) (hd : List Telegram) (tl : Int),
+    Duo cfg G n x y stx sty l stage r0 hd tl → n.stations.length = 2 → stx.s.p.address = aL → stx.s.p.hsa = hsa →
+    sty.s.p.address = sty0.s.p.address →
+    max (n.bus.seen.getD x 0) (l + ((stage.wait cfg : Nat) : Int)) + ((stage.rest cfg aL hsa : Nat) : Int) ≤ B →
+    SchedN cfg.P n tl evs → DuoRun x y aL sty0.s.p.address B n evs := by
+  intro evs
+  induction evs with
+  | nil => intro _ _ _ _ _ _ _ _ _ _ _ _ _ _; trivial
+  | cons ev rest ih =>
+    intro n stx sty l stage hd tl d hN haL hhsa haH hB hs
+    obtain ⟨i, now⟩ := ev
+    obtain ⟨hi, htl, hown, hgap, hrest⟩ := hs
+    have hxl := d.solo.xl
+    have hyl := d.yl
+    have hgx := hgap x hxl
+    have hgy := hgap y hyl
+    have hixy : i = x ∨ i = y := by have := d.yx; omega
+    subst haL hhsa
+    rcases hixy with rfl | rfl
+    · obtain ⟨n', c, hp, hnB, hout⟩ := duo_claimant d hok hP100 hG B hB now htl hown hgx hgy
+      have hn' : (n.poll i now).1 = n' := by rw [hp]
+      rw [hn'] at hrest
+      refine ⟨n', [], c, hp, .inr ⟨rfl, hnB, ?_⟩⟩
+      rcases hout with h1 | h2 | ⟨stage', l', d', htx, hB'⟩
+      · exact .inl h1
+      · exact .inr (.inl (by rw [← haH]; exact h2))
+      · refine .inr (.inr ⟨?_, ?_⟩)
+        · rw [← haH]; exact htx
+        · have hpeq : c.s.p = stx.s.p := by
+            obtain ⟨-, st0, hst0, -, hpoll0⟩ := Net.poll_bus n i now n' [] c hp
+            rw [d.solo.gx] at hst0; cases hst0
+            exact (poll_frame _ _ _ _ _ c hpoll0).1
+          have e1 : (upSt stx c).s.p.address = stx.s.p.address := by show c.s.p.address = _; rw [hpeq]
+          have e2 : (upSt stx c).s.p.hsa = stx.s.p.hsa := by show c.s.p.hsa = _; rw [hpeq]
+          have hlen' : n'.stations.length = 2 := by
+            have := Net.poll_len n i now; rw [hp] at this; simp only at this; rw [this]; exact hN
+          have hseen : n'.bus.seen.getD i 0 = now := by
+            have := Net.poll_seenN n i now; rw [hp] at this; simp only at this
+            rw [this, seen_set_self _ _ _ d.solo.xs]
+          exact ih n' (upSt stx c) sty l' stage' hd now d' hlen' e1 e2 haH (by rw [hseen]; exact hB') hrest
+    · obtain ⟨n', inc, c, sty', hd', hp, htx, d'⟩ := duo_listen d hok now htl hown hgx
+      have hn' : (n.poll i now).1 = n' := by rw [hp]
+      rw [hn'] at hrest
+      refine ⟨n', inc, c, hp, .inl ⟨rfl, htx, ?_⟩⟩
+      have hlen' : n'.stations.length = 2 := by
+        have := Net.poll_len n i now; rw [hp] at this; simp only at this; rw [this]; exact hN
+      have hseen : n'.bus.seen.getD x 0 = n.bus.seen.getD x 0 := by
+        have := Net.poll_seenN n i now; rw [hp] at this; simp only at this
+        rw [this, seen_set_other _ _ _ _ d.yx]
+      have haH' : sty'.s.p.address = sty0.s.p.address := by
+        have := d'.gy
+        obtain ⟨-, st0, hst0, hset, hpoll0⟩ := Net.poll_bus n i now n' inc c hp
+        rw [d.gy] at hst0; cases hst0
+        rw [hset, List.getElem?_set_self d.yl] at this
+        have e := (Option.some.inj this).symm
+        rw [e]
+        show c.s.p.address = _
+        rw [(poll_frame _ _ _ _ _ c hpoll0).1]; exact haH
+      exact ih n' stx sty' l stage hd' now d' hlen' rfl rfl haH' (by rw [hseen]; exact hB) hrest
+
+/-! ## From two listening stations to claimant and listener -/
+
+/-- **Two stations listening on a silent bus**: nothing transmitted; `x` (stamp `lx`) and `y` (stamp `ly`) in
+`ListenToken` with empty buffers. -/
+structure CS2 (cfg : Cfg) (n : Net) (x y : Nat) (stx sty : NetStation) (lx ly : Int) : Prop where
+  solo : Solo cfg n x stx lx
+  lisx : ∃ coll, stx.s.st = .listenToken none coll
+  empty : n.bus.txs = []
+  corrupt : n.bus.corrupt = []
+  gy : n.stations[y]? = some sty
+  yx : y ≠ x
+  ys : y < n.bus.seen.length
+  yl : y < n.stations.length
+  lisy : Listening sty ly
+  lys : ly ≤ n.bus.seen.getD y 0
+  pby : sty.s.pendingBytes = 0
+
+/-- The poll at which `x` claims: from then on claimant and listener (`Duo`, stage `c2`). -/
+theorem duo_init {cfg : Cfg} {n : Net} {x y : Nat} {stx sty : NetStation} {lx ly : Int} (h : CS2 cfg n x y stx sty lx ly)
+    (hok : cfg.Ok) (G : Nat) (hG : cfg.slot + 3 * cfg.P ≤ G) (hGy : G + cfg.ce 0 + 2 ≤ sty.s.p.tokenLostTimeout)
+    (hne : stx.s.p.address ≠ sty.s.p.address) (now : Int) (hown : n.bus.seen.getD x 0 < now)
+    (hsy : n.bus.seen.getD y 0 ≤ now)
+    (hexp : lx + (stx.s.p.tokenLostTimeout : Nat) ≤ now) (hsync : cfg.b33 < stx.s.p.tokenLostTimeout)
+    (hv : RingView [stx.s.p.address] stx.s.p.address stx.s.ring.claimToken)
+    (hstag : now + ((cfg.ce 0 : Nat) : Int) < ly + (sty.s.p.tokenLostTimeout : Nat)) :
+    ∃ n' c, n.poll x now = (n', [], some (.ok c)) ∧ c.tx = some (selfToken stx.s.p.address) ∧
+      c.s.st = .claimToken .secondToken ∧ c.s.p = stx.s.p ∧
+      Duo cfg G n' x y (upSt stx c) sty (now + (cfg.b33 : Nat)) .c2 sty.s.ring [] now := by
+  have hr := hok.rate
+  have hmar := hok.margin
+  have hc2 := cfg.ce2 hr
+  have hc0 := cfg.ce_pos hr 0
+  have hs := h.solo
+  obtain ⟨coll, hst⟩ := h.lisx
+  obtain ⟨n', c, hp, hseen, htx, hS', hs2, hv', hp'⟩ := lone_listen_claim hs hok coll hst now hown hexp hsync hv
+  obtain ⟨hbus, st0, hst0, hset, -⟩ := Net.poll_bus n x now n' [] c hp
+  rw [hs.gx] at hst0
+  cases hst0
+  rw [Bus.deliver_allOwn n.bus x now hs.own, htx] at hbus
+  simp only at hbus
+  have hxy : x ≠ y := Ne.symm h.yx
+  have hrate : 0 < n.bus.rate := by rw [hs.rate]; exact hr
+  have hspec := Bus.send_spec { n.bus with seen := n.bus.seen.set x now } x now (selfToken stx.s.p.address) hs.drops
+  have htxs : n'.bus.txs = [{ start := now, sender := x, bytes := selfToken stx.s.p.address, dropped := false }] := by
+    have hk : decide (Bus.txEnd { n.bus with seen := n.bus.seen.set x now }
+        ({ start := now, sender := x, bytes := selfToken stx.s.p.address, dropped := false } : Transmission) + 100000 > now) = true := by
+      have := Bus.byteEnd_pos n.bus hrate ((selfToken stx.s.p.address).length - 1)
+      unfold Bus.txEnd
+      simp only [decide_eq_true_eq]
+      show now + n.bus.byteEnd ((selfToken stx.s.p.address).length - 1) + 100000 > now
+      omega
+    rw [hbus, hspec]
+    simp only [h.empty, List.nil_append, List.filter_cons, List.filter_nil]
+    rw [if_pos]
+    have := Bus.byteEnd_pos n.bus hrate ((selfToken stx.s.p.address).length - 1)
+    unfold Bus.txEnd
+    simp only [decide_eq_true_eq]
+    show now + n.bus.byteEnd ((selfToken stx.s.p.address).length - 1) + 100000 > now
+    omega
+  have hseen' : n'.bus.seen = n.bus.seen.set x now := by rw [hbus, hspec]
+  have haddr : (upSt stx c).s.p.address = stx.s.p.address := by show c.s.p.address = _; rw [hp']
+  have hsyy : n'.bus.seen.getD y 0 = n.bus.seen.getD y 0 := by rw [hseen', seen_set_other _ _ _ _ hxy]
+  have hce : cEnd cfg ({ start := now, sender := x, bytes := selfToken stx.s.p.address, dropped := false } : Transmission) =
+      now + ((cfg.ce 2 : Nat) : Int) := rfl
+  have hv0 : cvis cfg ({ start := now, sender := x, bytes := selfToken stx.s.p.address, dropped := false } : Transmission)
+      (n.bus.seen.getD y 0) = 0 := by
+    apply cvis_zero
+    simp only
+    omega
+  refine ⟨n', c, hp, htx, hs2, hp', hS', hs2, by rw [haddr]; exact hv', ?_, ?_, h.yx, ?_, ?_, ?_, ?_, ?_, ?_⟩
+  · rw [haddr]
+    refine ⟨by rw [hbus, hspec]; exact hs.rate, by rw [hbus, hspec]; exact h.corrupt, by rw [htxs]; exact List.pairwise_singleton _ _,
+      ?_, ?_, ?_⟩
+    · intro t ht; rw [htxs] at ht; simp only [List.mem_singleton] at ht; subst ht; rfl
+    · intro t ht; rw [htxs] at ht; simp only [List.mem_singleton] at ht; subst ht; rfl
+    · intro t ht; rw [htxs] at ht; simp only [List.mem_singleton] at ht; subst ht; exact .inl rfl
+  · rw [hset, List.getElem?_set_ne hxy]; exact h.gy
+  · rw [hseen']; simp only [List.length_set]; exact h.ys
+  · rw [hset, List.length_set]; exact h.yl
+  · -- the listener has not seen anything of the claim token yet
+    rw [haddr]
+    refine ⟨h.lisy.online, h.lisy.alive, h.lisy.inv, h.lisy.son, hne, hGy, rfl, [],
+      [{ start := now, sender := x, bytes := selfToken stx.s.p.address, dropped := false }], ly, ?_⟩
+    obtain ⟨cy, hcy⟩ := h.lisy.lis
+    refine ⟨cy, (by rw [htxs]; rfl), (fun o ho => by cases ho), ?_, ?_, ?_, h.lisy.stamp, (by rw [hsyy]; exact h.lys), hcy, ?_⟩
+    · rw [hsyy]
+      unfold arrived
+      simp only [List.map_cons, List.map_nil, List.flatten_cons, List.flatten_nil, hv0, List.take_zero, List.append_nil]
+      exact h.lisy.rx
+    · rw [h.pby]; exact Nat.zero_le _
+    · intro t rest hrs
+      simp only [List.cons.injEq] at hrs
+      obtain ⟨rfl, -⟩ := hrs
+      rw [hsyy, hv0]
+      show 0 < 3; omega
+    · rw [hsyy]
+      unfold nextArr
+      simp only [hv0]
+      exact hstag
+  · intro t ht
+    rw [htxs, List.getLast?_singleton] at ht
+    have := Option.some.inj ht
+    subst this
+    rw [hseen, hce]
+    simp only [SStage.wait, SStage.slack]
+    push_cast
+    omega
+  · intro t ht; rw [htxs] at ht; simp only [List.mem_singleton] at ht; subst ht; exact Int.le_refl _
+  · rw [hseen, hsyy]; exact ⟨Int.le_refl _, hsy⟩
+
+/-- `x` is polled before its time-out: nothing happens. -/
+theorem cs2_wait_x {cfg : Cfg} {n : Net} {x y : Nat} {stx sty : NetStation} {lx ly : Int} (h : CS2 cfg n x y stx sty lx ly)
+    (hok : cfg.Ok) (now : Int) (hown : n.bus.seen.getD x 0 < now) (hw : now < lx + (stx.s.p.tokenLostTimeout : Nat)) :
+    ∃ n' c, n.poll x now = (n', [], some (.ok c)) ∧ c.tx = none ∧ CS2 cfg n' x y stx sty lx ly ∧
+      n'.bus.seen = n.bus.seen.set x now := by
+  obtain ⟨coll, hst⟩ := h.lisx
+  obtain ⟨n', c, hp, htx, hS', hseen⟩ := lone_listen_wait h.solo hok coll hst now hown hw
+  obtain ⟨hbus, st0, hst0, hset, -⟩ := Net.poll_bus n x now n' [] c hp
+  rw [Bus.deliver_allOwn n.bus x now h.solo.own, htx] at hbus
+  simp only at hbus
+  have hxy : x ≠ y := Ne.symm h.yx
+  have hgy : n'.stations[y]? = some sty := by
+    have := hS'.gx
+    rw [h.solo.gx] at hst0; cases hst0
+    rw [hset, List.getElem?_set_ne hxy]; exact h.gy
+  refine ⟨n', c, hp, htx, ⟨hS', h.lisx, by rw [hbus]; exact h.empty, by rw [hbus]; exact h.corrupt, hgy, h.yx,
+    by rw [hbus]; simp only [List.length_set]; exact h.ys, by rw [hset, List.length_set]; exact h.yl, h.lisy,
+    by rw [hbus]; simp only; rw [seen_set_other _ _ _ _ hxy]; exact h.lys, h.pby⟩, by rw [hbus]⟩
+
+/-- `y` is polled before its time-out: nothing happens. -/
+theorem cs2_wait_y {cfg : Cfg} {n : Net} {x y : Nat} {stx sty : NetStation} {lx ly : Int} (h : CS2 cfg n x y stx sty lx ly)
+    (now : Int) (hown : n.bus.seen.getD y 0 < now) (hw : now < ly + (sty.s.p.tokenLostTimeout : Nat)) :
+    ∃ n' c, n.poll y now = (n', [], some (.ok c)) ∧ c.tx = none ∧ CS2 cfg n' x y stx sty lx ly ∧
+      n'.bus.seen = n.bus.seen.set y now := by
+  obtain ⟨coll, hs⟩ := h.lisy.lis
+  have hp := listen_poll_quiet sty.s sty.apps now ly coll h.lisy.son hs h.lisy.stamp (by have := h.lys; omega) hw
+  have hp' : sty.s.poll sty.apps now (Bus.transmitting { n.bus with seen := n.bus.seen.set y now } y now)
+      (sty.rx ++ []) = .ok { s := sty.s, apps := sty.apps, rx := [] } := by
+    rw [transmitting_seen, h.lisy.rx, Bus.transmitting_nil _ _ _ h.empty]; exact hp
+  have hpe := Net.poll_eq n y now sty _ [] _ h.gy h.lisy.alive h.lisy.online (Bus.deliver_nil n.bus y now h.empty) hp'
+  have hsame : ({ sty with s := sty.s, apps := sty.apps, rx := [] } : NetStation) = sty := by rw [← h.lisy.rx]
+  simp only at hpe
+  rw [hsame] at hpe
+  have hs0 := h.solo
+  refine ⟨_, _, hpe, rfl, ⟨⟨hs0.rate, hs0.drops, hs0.own, hs0.ends, by simp only [List.length_set]; exact hs0.xl,
+      by simp only [List.length_set]; exact hs0.xs, by simp only; rw [List.getElem?_set_ne h.yx]; exact hs0.gx,
+      hs0.online, hs0.alive, hs0.inv, hs0.son, hs0.rx, hs0.stamp, hs0.prate, hs0.pslot⟩,
+    h.lisx, h.empty, h.corrupt, List.getElem?_set_self h.yl, h.yx, by simp only [List.length_set]; exact h.ys,
+    by simp only [List.length_set]; exact h.yl, h.lisy, by simp only; rw [seen_set_self _ _ _ h.ys]; have := h.lys; omega,
+    h.pby⟩, rfl⟩
+
+/-- **Cold start of two stations up to the poll of the listener's address** (`T` = instant at which `x`'s time-out
+runs out, `lim` = latest time of its claim, `D` = formation budget). -/
+def TwoRun (x y aL aH : Nat) (T lim : Int) (D : Nat) : Net → List (Nat × Int) → Prop
+  | _, [] => True
+  | n, (i, now) :: rest =>
+    ∃ n' inc c, n.poll i now = (n', inc, some (.ok c)) ∧
+      ((c.tx = none ∧ (i = x → now < T) ∧ TwoRun x y aL aH T lim D n' rest) ∨
+       (i = x ∧ T ≤ now ∧ now ≤ lim ∧ c.tx = some (selfToken aL) ∧ c.s.st = .claimToken .secondToken ∧
+          DuoRun x y aL aH (now + (D : Int)) n' rest))
+
+theorem two_cold_start {cfg : Cfg} (hok : cfg.Ok) (hP100 : cfg.P ≤ 100000) (G : Nat) (hG : cfg.slot + 3 * cfg.P ≤ G)
+    (x y : Nat) (stx sty : NetStation) (lx ly : Int)
+    (hGy : G + cfg.ce 0 + 2 ≤ sty.s.p.tokenLostTimeout) (hne : stx.s.p.address ≠ sty.s.p.address)
+    (hsync : cfg.b33 < stx.s.p.tokenLostTimeout)
+    (hv : RingView [stx.s.p.address] stx.s.p.address stx.s.ring.claimToken)
+    (hstag : lx + (stx.s.p.tokenLostTimeout : Nat) + (cfg.P : Nat) + ((cfg.ce 0 : Nat) : Int) < ly + (sty.s.p.tokenLostTimeout : Nat)) :
+    ∀ (evs : List (Nat × Int)) (n : Net) (tl : Int), CS2 cfg n x y stx sty lx ly → n.stations.length = 2 →
+    n.bus.seen.getD x 0 < lx + (stx.s.p.tokenLostTimeout : Nat) → n.bus.seen.getD y 0 ≤ tl → SchedN cfg.P n tl evs →
+    TwoRun x y stx.s.p.address sty.s.p.address (lx + (stx.s.p.tokenLostTimeout : Nat))
+      (lx + (stx.s.p.tokenLostTimeout : Nat) + (cfg.P : Nat)) (cfg.formTime stx.s.p.hsa) n evs := by
+  intro evs
+  induction evs with
+  | nil => intro _ _ _ _ _ _ _; trivial
+  | cons ev rest ih =>
+    intro n tl h hN hsx hsy hs
+    obtain ⟨i, now⟩ := ev
+    obtain ⟨hi, htl, hown, hgap, hrest⟩ := hs
+    have hgx := hgap x h.solo.xl
+    have hgy := hgap y h.yl
+    have hixy : i = x ∨ i = y := by have := h.yx; have := h.solo.xl; have := h.yl; omega
+    have hc0 := cfg.ce_pos hok.rate 0
+    rcases hixy with rfl | rfl
+    · by_cases hw : now < lx + (stx.s.p.tokenLostTimeout : Nat)
+      · obtain ⟨n', c, hp, htx, h', hseen⟩ := cs2_wait_x h hok now hown hw
+        have hn' : (n.poll i now).1 = n' := by rw [hp]
+        rw [hn'] at hrest
+        refine ⟨n', [], c, hp, .inl ⟨htx, fun _ => hw, ?_⟩⟩
+        have hlen' : n'.stations.length = 2 := by
+          have := Net.poll_len n i now; rw [hp] at this; simp only at this; rw [this]; exact hN
+        exact ih n' now h' hlen' (by rw [hseen, seen_set_self _ _ _ h.solo.xs]; exact hw)
+          (by rw [hseen, seen_set_other _ _ _ _ (Ne.symm h.yx)]; omega) hrest
+      · obtain ⟨n', c, hp, htx, hcs, hp', d⟩ := duo_init h hok G hG hGy hne now hown (by omega) (by omega) hsync hv (by omega)
+        have hn' : (n.poll i now).1 = n' := by rw [hp]
+        rw [hn'] at hrest
+        refine ⟨n', [], c, hp, .inr ⟨rfl, by omega, by omega, htx, hcs, ?_⟩⟩
+        have hlen' : n'.stations.length = 2 := by
+          have := Net.poll_len n i now; rw [hp] at this; simp only at this; rw [this]; exact hN
+        have e1 : (upSt stx c).s.p.address = stx.s.p.address := by show c.s.p.address = _; rw [hp']
+        have e2 : (upSt stx c).s.p.hsa = stx.s.p.hsa := by show c.s.p.hsa = _; rw [hp']
+        have hseen : n'.bus.seen.getD i 0 = now := by
+          have := Net.poll_seenN n i now; rw [hp] at this; simp only at this
+          rw [this, seen_set_self _ _ _ h.solo.xs]
+        refine duo_run hok hP100 G hG i y sty.s.ring (now + (cfg.formTime stx.s.p.hsa : Nat)) stx.s.p.address stx.s.p.hsa sty rest n'
+          (upSt stx c) sty (now + (cfg.b33 : Nat)) .c2 [] now d hlen' e1 e2 rfl ?_ hrest
+        rw [hseen]
+        simp only [SStage.wait, SStage.rest, remGap_self _ _ h.solo.inv.addr]
+        unfold Cfg.formTime
+        push_cast
+        omega
+    · have hw : now < ly + (sty.s.p.tokenLostTimeout : Nat) := by omega
+      obtain ⟨n', c, hp, htx, h', hseen⟩ := cs2_wait_y h now hown hw
+      have hn' : (n.poll i now).1 = n' := by rw [hp]
+      rw [hn'] at hrest
+      refine ⟨n', [], c, hp, .inl ⟨htx, fun e => absurd e h.yx, ?_⟩⟩
+      have hlen' : n'.stations.length = 2 := by
+        have := Net.poll_len n i now; rw [hp] at this; simp only at this; rw [this]; exact hN
+      exact ih n' now h' hlen' (by rw [hseen, seen_set_other _ _ _ _ h.yx]; exact hsx)
+        (by rw [hseen, seen_set_self _ _ _ h.ys]; exact Int.le_refl _) hrest
+
 end PV
